@@ -274,7 +274,8 @@ def yaw_case(arg):
         y = 6.0 * ((i % 3) - 1)
         lab = "car" if i % 2 == 0 else "pedestrian"
         G.append(obj3d((x, y, 0.0), yaw=yg, size=(2.0, 4.0, 1.5), label=lab, frame=fr, ego=ego, uuid="g%d" % i))
-        E.append(obj3d((x + 0.2, y - 0.1, 0.0), yaw=ye, size=(2.0, 4.0, 1.5), label=lab, score=0.9 - 0.01 * i, frame=fr, ego=ego, uuid="e%d" % i))
+        dx_ = 3.2 if i % 3 == 2 else 0.2          # every third pair is matched but fails the pass/fail threshold: a paired FP row
+        E.append(obj3d((x + dx_, y - 0.1, 0.0), yaw=ye, size=(2.0, 4.0, 1.5), label=lab, score=0.9 - 0.01 * i, frame=fr, ego=ego, uuid="e%d" % i))
     crit = CriticalObjectFilterConfig(ec, ["car", "pedestrian"], max_x_position_list=[100.0, 100.0], max_y_position_list=[100.0, 100.0])
     pfc = PerceptionPassFailConfig(ec, ["car", "pedestrian"], [2.0, 2.0])
     info = dict(rendering=rendering, pairs=pairs_)
